@@ -9,7 +9,7 @@ META = {
     "engine": "afc",
     "technique": "TLA+ spec BiArc (one action per atomic access of BiArc::try_clone/get_if_shared/drop) model-checked with TLC; edge-covering schedules of its state graph replayed on the real Lender/Loan under the yield-point scheduler with a tracking allocator as memory-safety oracle (spec->impl conformance)",
     "text": "TLC checks the two-handle arc (lender thread: lend x3, drop; two loan threads: get_mut, use, get_mut, use, drop; every interleaving) for: at most one live loan, exclusive use of the exclusive data, no access after the free, no access for a get_mut after drop(Lender) returned, freed at most once and not before both handles are gone, freed exactly once at the end; the spec mutant 'free when the old state was SHARED' must be rejected. Every transition of the state graph is executed on the real types: each path is a schedule of yield points (swap in try_clone, load in get_if_shared, swap and free in drop); payloads record their drop, freed blocks are poisoned and quarantined by the harness allocator. VIOLATION on: second live loan, concurrent exclusive use, access granted after revocation, touching or reading freed data, double free, leak / payload not dropped exactly once.",
-    "note": "Bounds: 1 lender thread with <=3 lend() calls, 2 loan threads with 2 get_mut() each; thorough adds 3 loan threads x 4 lends; additionally the AfcMem schedules (memory::State, 2 readers) with the allocator verdict. Sequentially consistent interleavings only (DESIGN §9). Trusts the yield points in lender.rs and the allocator's quarantine (no reuse of a freed block during a schedule).",
+    "note": "Bounds: 1 lender thread with <=3 lend() calls, 2 loan threads with 2 get_mut() each; thorough adds 3 loan threads x 4 lends; additionally free-running races (real unscheduled threads, spin barrier with jitter, 4 s per pair quick / 20 s thorough) of the pairs drop(Lender)||drop(Loan), lend||lend, lend||drop(Loan) with the payload-drop oracle, which reach interleavings inside a read-modify-write split into separate accesses (not exhaustive: a stress complement to the schedules); and the AfcMem schedules (memory::State, 2 readers) with the allocator verdict. Sequentially consistent interleavings only (DESIGN §9). Trusts the yield points in lender.rs and the allocator's quarantine (no reuse of a freed block during a schedule).",
 }
 
 ACTIONS = ["lend", "ldrop", "lfree", "wait", "get", "use", "used", "drop", "free"]
@@ -45,6 +45,14 @@ def run(ctx):
         graphs[cfg] = {"constants": c, "states": info["states"], "transitions": info["transitions"],
                        "cover_paths": info["cover_paths"], "replayed": len(beh),
                        "steps_executed": sum(x.get("steps", 0) for x in res)}
+    # free-running races of the operation pairs the state graph has enabled together (the SCHED
+    # replay preempts only at yield points; here the hardware interleaves single accesses)
+    ms = 20000 if ctx.thorough else 4000
+    races = [{"race": m, "rounds": 2000000 if ctx.thorough else 400000, "ms": ms}
+             for m in ("drop-drop", "lend-lend", "lend-drop")]
+    rres = ctx.run_engine(vh, "biarc", races, tag="biarc-race")
+    ctx.absorb(rres)
+    ctx.cov["free_running_races"] = {r["_in"]["race"]: r.get("steps", 0) for r in rres if r.get("_in")}
     # the same cell inside memory::State (Lender per channel, Loan per context): allocator verdict only
     afc_util.mem_check(ctx, vh, "C44", validate=False)
     if ctx.nviol:
@@ -55,6 +63,10 @@ def run(ctx):
     st = ctx.run_engine(vh, "biarc", allbeh[:50], opts={"selftest": "forget"}, tag="selftest-forget")
     if not any(x.get("key") == "C44:leak" for x in st):
         raise verif.ToolError("binding self-test failed: a forgotten lender (leak) was not reported")
+    st = ctx.run_engine(vh, "biarc", [{"race": "drop-drop", "rounds": 50, "ms": 2000}],
+                        opts={"selftest": "forget"}, tag="selftest-race-forget")
+    if not any(x.get("key") == "C44:leak" for x in st):
+        raise verif.ToolError("binding self-test failed: a forgotten lender in the free-running race was not reported")
     bad = [dict(allbeh[0])]
     bad[0]["steps"] = [dict(s) for s in bad[0]["steps"]]
     bad[0]["steps"][0]["freed"] = 1
@@ -65,7 +77,7 @@ def run(ctx):
         "exhaustive": True,
         "schedule_graphs": graphs,
         "selftests": ["spec mutant FreeWhenOld=TRUE rejected by TLC (%s)" % rm.violated,
-                      "engine: forgotten lender reported as leak", "engine: perturbed expected state counted as drift"],
+                      "engine: forgotten lender reported as leak (scheduled and free-running)", "engine: perturbed expected state counted as drift"],
     })
     ctx.assumptions += [
         "yield points precede every access of BiArcInner::state and the free in lender.rs",
